@@ -99,6 +99,11 @@ func main() {
 			g.w.Finish(rule, g.samples, nil)
 			return
 		}
+		if os.Getenv("C17_ONLY") == "pubgone" { // development run: only the publisher-goes-away family
+			timed("service-publisher-gone", func() { g.genServicePublisherGone(rnd.Fork(11), thorough, o.Budget) })
+			g.w.Finish(rule, g.samples, nil)
+			return
+		}
 		if os.Getenv("C17_ONLY") != "client" {
 			timed("validators", func() { g.genValidators(rnd.Fork(1), thorough, o.Budget) })
 			timed("trie", func() { g.genTrie(rnd.Fork(2), thorough, o.Budget) })
@@ -106,6 +111,7 @@ func main() {
 			g.genReceive(rnd.Fork(4), thorough, o.Budget)
 			timed("service-no-side-effects", func() { g.genServiceNoSideEffects(rnd.Fork(9), thorough, o.Budget) })
 			timed("service-close-race", func() { g.genServiceCloseRace(rnd.Fork(10), thorough, o.Budget) })
+			timed("service-publisher-gone", func() { g.genServicePublisherGone(rnd.Fork(11), thorough, o.Budget) })
 		}
 		timed("client", func() { g.genClient(rnd.Fork(5), thorough, o.Budget) })
 		timed("client-no-side-effects", func() { g.genClientNoSideEffects(rnd.Fork(8), thorough, o.Budget) })
